@@ -187,9 +187,26 @@ func rulesC09(c *Ctx) {
 				return isCmp && op == token.NEQ && a.Val && ps.IsField(x, idF) && isC && s == ""
 			})
 			noErr := hasAtom(guards, func(a Atom) bool { return AtomSaysNil(a, true, func(e ast.Expr) bool { return ps.ObjOf(e) == errv }) })
+			// ... and for *every* such event: the gate in front of the assignment is the non-empty test and nothing else
+			if nl, what := g.semanticLeaves(g.VertexOf(w)); true {
+				c.Check(nl == 1, "processStream:cursor-follows-every-event", ps, w, "the cursor advances on every complete event that has an id: one test guards the assignment (%d: %s)", nl, what)
+			}
 			c.Check(src && nonEmpty && noErr, "processStream:cursor-from-complete-event", ps, w, "lastEventID is assigned only from the id of an event the scanner yielded without error, when that id is non-empty (guards: %s)", atomsString(guards))
 		}
 		c.Pin("cursor assignments", n, 1)
+		// every message event reaches the session: the hand-off is skipped for events without data and for events named
+		// other than "message", and for nothing else
+		incF := c.Field(pM, "streamableClientConn", "incoming")
+		nSend := 0
+		for _, sd := range sendsOn(ps, incF) {
+			if !encloses(rng, sd) {
+				continue
+			}
+			nSend++
+			nl, what := g.semanticLeaves(g.VertexOf(sd))
+			c.Check(nl == 3, "processStream:every-message-event-is-delivered", ps, sd, "three tests stand between a complete event and its delivery (data empty; name set; name not \"message\") — found %d: %s", nl, what)
+		}
+		c.Pin("processStream deliveries", nSend, 1)
 		// handleSSE passes processStream's result to connectSSE
 		hg := hs.Graph()
 		var got types.Object
@@ -222,6 +239,12 @@ func rulesC09(c *Ctx) {
 					s, isC := cs.ConstString(y)
 					return isCmp && op == token.NEQ && a.Val && cs.ObjOf(x) == types.Object(cursorParam) && isC && s == ""
 				})
+			}
+		}
+		for _, call := range cs.AllCalls(cs.Body, false) {
+			if fn := cs.Callee(call); fn != nil && fn.Name() == "Set" && len(call.Args) == 2 && cs.ObjOf(call.Args[0]) == lei {
+				nl, what := cg.semanticLeaves(cg.VertexOf(call))
+				c.Check(nl == 2, "connectSSE:Last-Event-ID:not-narrowed", cs, call, "the header depends on the retry budget and on the cursor being non-empty, and on nothing else (%d tests: %s)", nl, what)
 			}
 		}
 		c.Check(okHdr, "connectSSE:Last-Event-ID", cs, nil, "Last-Event-ID is set from the lastEventID parameter whenever it is non-empty")
